@@ -906,6 +906,10 @@ def run_(c):
                 e = o["meta"]["e"]
                 if e > 1 and 2 * math.pi * abs(o["meta"]["dtP"]) / (e - 1) > 100.0:
                     continue           # F14 domain is covered by the solver part
+                if integ == "trace" and 2 * math.pi * abs(o["meta"]["dtP"]) * abs(1 - e) ** -1.5 > 0.3:
+                    continue           # TRACE "away from encounters": steps that resolve the pericentre passage
+                                       # (otherwise its pericentre switch hands the step to BS, which is not C03's
+                                       # subject and can take minutes for e -> 1)
                 break
             if integ == "trace":
                 o["dt"] = abs(o["dt"])          # TRACE with dt<0 is finding F10 (C01/C08)
